@@ -217,3 +217,74 @@ Definition Known_C17_rtc (n : rtc) : Prop :=
   | RtcAs a => a = 0
   | RtcExact _ rt => match rt with t :: s :: _ => 2 < t \/ s <> 2 | _ => True end
   end.
+
+(* ------------------------------------------------------------------ *)
+(* Typed PREFIX_SID / TUNNEL_ENCAP messages: what the stored TLV tree must satisfy.
+   wf_*: every field within its wire width (what the decoders of packet/src/prefix_sid.rs and
+   packet/src/tunnel_encap.rs can produce); *_fits: no length field of the encoding has wrapped. *)
+Definition wf_psst (s : psst) : Prop :=
+  match s with PsSt a b c d e f => a < 256 /\ b < 256 /\ c < 256 /\ d < 256 /\ e < 256 /\ f < 256 end.
+Definition wf_ps_info (i : ps_info) : Prop :=
+  match i with PsInfo sid beh ss => length sid = 16%nat /\ bytes_ok sid /\ beh < 65536 /\ Forall wf_psst ss end.
+Definition wf_ps_tlv (t : ps_tlv) : Prop := match t with PsSvc _ infos => Forall wf_ps_info infos end.
+Definition wf_psid (p : psid) : Prop := Forall wf_ps_tlv p.
+
+Definition ps_fits (p : psid) : Prop :=
+  Forall (fun t => N.of_nat (length (ps_tlv_value t)) < 65536 /\
+                   match t with PsSvc _ infos => Forall (fun i => N.of_nat (length (ps_info_value i)) < 65536) infos end) p.
+
+Definition api_ps_infos (t : api_ps_tlv) : list api_ps_info :=
+  match t with APsMissing => [] | APsSvc _ subs => flat_map snd subs end.
+Definition api_psid_in_range (x : list api_ps_tlv) : Prop :=
+  Forall (fun t => Forall (fun i => match i with APsInfo sid _ _ => bytes_ok sid | APsInfoMissing => True end) (api_ps_infos t)) x.
+
+Definition wf_ebs (e : ebs) : Prop :=
+  match e with Ebs beh bl nl fl al => beh < 65536 /\ bl < 256 /\ nl < 256 /\ fl < 256 /\ al < 256 end.
+Definition wf_seg (g : te_seg) : Prop :=
+  match g with
+  | SegA f l => f < 256 /\ l < 1048576
+  | SegB f sid e => f < 256 /\ length sid = 16%nat /\ bytes_ok sid /\ match e with Some e' => wf_ebs e' | None => True end
+  end.
+Definition wf_opt {A} (P : A -> Prop) (o : option A) : Prop := match o with Some x => P x | None => True end.
+Definition wf_cp (cp : te_cp) : Prop :=
+  wf_opt (fun x => fst x < 256 /\ snd x < 4294967296) (cp_pref cp) /\
+  wf_opt (fun x => match x with
+                   | BsMpls f l => f < 256 /\ l < 1048576
+                   | BsSrv6 f sid => f < 256 /\ length sid = 16%nat /\ bytes_ok sid
+                   end) (cp_bsid cp) /\
+  wf_opt (fun x => match x with (f, sid, e) => f < 256 /\ length sid = 16%nat /\ bytes_ok sid /\ wf_ebs e end) (cp_bsid6 cp) /\
+  wf_opt (fun x => fst x < 256 /\ snd x < 256) (cp_enlp cp) /\
+  wf_opt (fun p => p < 256) (cp_prio cp) /\
+  Forall (fun sl => wf_opt (fun w => fst w < 256 /\ snd w < 4294967296) (fst sl) /\ Forall wf_seg (snd sl)) (cp_segs cp) /\
+  wf_opt bytes_ok (cp_name cp) /\
+  wf_opt (fun n => bytes_ok n /\ utf8_valid n = true) (cp_pname cp).
+Definition wf_te_tlv (t : te_tlv) : Prop :=
+  match t with TeSr cp => wf_cp cp | TeRaw ty v => ty < 65536 /\ ty <> SR_POLICY /\ bytes_ok v end.
+Definition wf_te (l : list te_tlv) : Prop := Forall wf_te_tlv l.
+
+(* the two-octet lengths (tunnel TLV, segment list, names) and the one-octet lengths of the segments *)
+Definition te_fits (l : list te_tlv) : Prop :=
+  Forall (fun t => N.of_nat (length (te_tlv_value t)) < 65536 /\
+                   match t with
+                   | TeSr cp =>
+                       wf_opt (fun n => N.of_nat (S (length n)) < 65536) (cp_name cp) /\
+                       wf_opt (fun n => N.of_nat (S (length n)) < 65536) (cp_pname cp) /\
+                       Forall (fun sl => N.of_nat (length (seglist_value sl)) < 65536 /\
+                                         Forall (fun g => N.of_nat (length (seg_value g)) < 256) (snd sl)) (cp_segs cp)
+                   | TeRaw _ _ => True
+                   end) l.
+
+Definition api_seg_in_range (g : api_seg) : Prop :=
+  match g with ASegB _ sid _ => bytes_ok sid | _ => True end.
+Definition api_te_sub_in_range (s : api_te_sub) : Prop :=
+  match s with
+  | ATsPref _ p => p < 4294967296
+  | ATsBsidMpls _ _ sid => bytes_ok sid
+  | ATsBsid6 _ _ _ sid _ => bytes_ok sid
+  | ATsName n => bytes_ok n
+  | ATsSegList w gs => wf_opt (fun w' => snd w' < 4294967296) w /\ Forall api_seg_in_range gs
+  | ATsUnknown _ v => bytes_ok v
+  | _ => True
+  end.
+Definition api_te_in_range (x : list (N * list api_te_sub)) : Prop :=
+  Forall (fun t => Forall api_te_sub_in_range (snd t)) x.
